@@ -48,7 +48,8 @@ impl ConvertibleIn<DimNameState> for DimVar {
             let var_type = on_dim_type(var_type, &bare_name, ctx, extra)?;
             (var_type, None)
         };
-        let existing_shared = is_redim && is_existing_shared_dynamic_array(ctx, &bare_name);
+        let existing_shared =
+            is_redim && is_existing_shared_dynamic_array(ctx, &bare_name, &var_type);
         if existing_shared && ctx.is_in_subprogram() {
             // REDIM of a SHARED array of the module inside a subprogram:
             // it is the same array, not a new local one
@@ -68,12 +69,32 @@ impl ConvertibleIn<DimNameState> for DimVar {
 /// Checks if the name is a SHARED dynamic array of the module
 /// (seen from the module itself, or from a subprogram
 /// that does not have a variable of that name of its own).
-fn is_existing_shared_dynamic_array(ctx: &LinterContext, bare_name: &BareName) -> bool {
+fn is_existing_shared_dynamic_array(
+    ctx: &LinterContext,
+    bare_name: &BareName,
+    var_type: &DimType,
+) -> bool {
     let found = ctx.names.find_name_or_shared_in_parent(bare_name);
     !found.is_empty()
-        && found
-            .iter()
-            .all(|(_, variable_info)| variable_info.shared && variable_info.redim_info.is_some())
+        && found.iter().all(|(_, variable_info)| {
+            variable_info.shared
+                && variable_info.redim_info.is_some()
+                && same_built_in_element_type(var_type, &variable_info.expression_type)
+        })
+}
+
+/// An array of another built-in type (e.g. `A$` next to the SHARED `A!`) is another array.
+fn same_built_in_element_type(var_type: &DimType, expression_type: &ExpressionType) -> bool {
+    match (var_type, expression_type) {
+        (DimType::Array(_, element_type), ExpressionType::Array(existing_element_type)) => {
+            match (element_type.as_ref(), existing_element_type.as_ref()) {
+                (DimType::BuiltIn(q, _), ExpressionType::BuiltIn(existing_q)) => q == existing_q,
+                (DimType::BuiltIn(_, _), _) | (_, ExpressionType::BuiltIn(_)) => false,
+                _ => true,
+            }
+        }
+        _ => true,
+    }
 }
 
 fn shared_illegal_in_sub_function(
